@@ -79,13 +79,17 @@ def rollRingLS {α} (w s : Nat) : LSplit α where
 
 def rollLS {α} (w s : Nat) : LSplit α := if w = s then rollCountLS w else rollRingLS w s
 
-def groupByLS {α κ} [DecidableEq κ] (f : α → κ) : LSplit α where
+def gbNext {α κ : Type} [DecidableEq κ] (f : α → κ) (m : List (κ × Nat)) (x : α) : List (κ × Nat) × List (Cmd α) :=
+  match gbLookup m (f x) with
+  | some j => (m, [.itm j x])
+  | none => (m ++ [(f x, m.length)], [.opn m.length, .itm m.length x])
+
+def gbFin {α κ : Type} (m : List (κ × Nat)) : List (Cmd α) := m.map fun p => Cmd.cls p.2
+
+def groupByLS {α κ : Type} [DecidableEq κ] (f : α → κ) : LSplit α where
   τ := List (κ × Nat)
   init := []
-  next := fun m x =>
-    match gbLookup m (f x) with
-    | some j => (m, [.itm j x])
-    | none => let j := m.length; (m ++ [(f x, j)], [.opn j, .itm j x])
-  fin := fun m => m.map fun p => Cmd.cls p.2
+  next := gbNext f
+  fin := gbFin
 
 end Rx
